@@ -747,6 +747,8 @@ def frange(start, stop, step=1.0):
     :return: float
     :rtype: generator
     """
+    if step <= 0.0 and float(start) < stop:
+        raise ValueError("The step must be positive")  # the sequence would never reach the stop value
     i = 0.0
     x = float(start)  # Prevent yielding integers.
     x0 = x
